@@ -17,6 +17,7 @@ Packs: those of the universe plus LOCAL_PACKS (defined here, shared with c02):
                            close a directed cycle (an equivalence class that only connect_cycles finds)
     restfirst              products with the non-atom factor first / between two atoms (SplitPrefix)
     localnames             unions whose children drop vanishing statistics, products whose factors use local names
+    dependent              a verification strategy whose rule has a child (a dependency on another class)
 
 The case machinery of this module (enumerate_cases, run_case, patched, ...) is shared with c02.
 """
@@ -107,6 +108,14 @@ LOCAL_PACKS = {
         [U.SplitPrefix(pieces=1, rest_at=0, local_names=True)],
         [],
         [[U.ExpansionDropVanishing()]],
+    ),
+    # a verification rule WITH a child (a documented dependency): the forest database must treat it as a rule with children
+    "dependent": lambda: StrategyPack(
+        initial_strats=[U.RemoveFrontOfPrefix()],
+        inferral_strats=[],
+        expansion_strats=[[U.ExpansionStrategy()]],
+        ver_strats=[U.StatAtomStrategy(), U.VerifiedThroughFactor()],
+        name="dependent",
     ),
 }
 ALL_PACKS = dict(PACKS)
